@@ -35,7 +35,15 @@ func (e *Exec) timeValue() Value {
 }
 
 func (e *Exec) durationArg(v Value, what string) int64 {
-	return int64(e.concretize(v.(*Term), what))
+	t := v.(*Term)
+	if !t.IsConst() {
+		// a duration that is not positive behaves like zero, whatever its value
+		// (eg. the time until an instant that lies in the past of a symbolic clock)
+		if e.branch(e.tt.Cmp(OpSle, t, e.tt.BV(t.w, 0))) {
+			return 0
+		}
+	}
+	return int64(e.concretize(t, what))
 }
 
 // formatMsg renders a printf-style message: strings are spliced in (symbolic
@@ -244,7 +252,7 @@ func init() {
 		now := e.timeValue().(Struct)
 		dsec := e.tt.Bin(OpSub, now[1].(*Term), t[1].(*Term))
 		dns := e.tt.Bin(OpSub, now[0].(*Term), t[0].(*Term))
-		return e.tt.Bin(OpAdd, e.tt.Bin(OpMul, dsec, e.tt.BV(64, 1_000_000_000)), dns)
+		return e.saturatedDuration(dsec, dns)
 	})
 }
 
@@ -841,8 +849,20 @@ func init() {
 		now := e.timeValue().(Struct)
 		dsec := e.tt.Bin(OpSub, t[1].(*Term), now[1].(*Term))
 		dns := e.tt.Bin(OpSub, t[0].(*Term), now[0].(*Term))
-		return e.tt.Bin(OpAdd, e.tt.Bin(OpMul, dsec, e.tt.BV(64, 1_000_000_000)), dns)
+		return e.saturatedDuration(dsec, dns)
 	})
+}
+
+// saturatedDuration is dsec seconds plus dns nanoseconds as a time.Duration,
+// saturating at the ends of its range like Time.Sub does.
+func (e *Exec) saturatedDuration(dsec, dns *Term) *Term {
+	const limit = 9223372035 // whole seconds that surely fit
+	d := e.tt.Bin(OpAdd, e.tt.Bin(OpMul, dsec, e.tt.BV(64, 1_000_000_000)), dns)
+	neg := int64(-limit)
+	tooLow := e.tt.Cmp(OpSlt, dsec, e.tt.BV(64, uint64(neg)))
+	tooHigh := e.tt.Cmp(OpSlt, e.tt.BV(64, limit), dsec)
+	d = e.tt.Ite(tooHigh, e.tt.BV(64, uint64(1<<63-1)), d)
+	return e.tt.Ite(tooLow, e.tt.BV(64, uint64(1)<<63), d)
 }
 
 func init() {
